@@ -240,8 +240,56 @@ def _always_bare_raises(body: Sequence[ast.stmt]) -> bool:
     return len(body) >= 1 and isinstance(body[-1], ast.Raise) and body[-1].exc is None and all(isinstance(s, (ast.Expr, ast.Pass)) and not pf.has_await(s) for s in body[:-1])
 
 
+class _Undecided(Exception):
+    pass
+
+
+def _inline_deciding_helpers(m: pf.Module, name: str) -> pf.FuncDef:
+    """`kind = _retry_kind(e, tries)` ... `if kind is None: raise`: a module-level helper whose result is bound to a local that the tests of the
+    function look at is inlined (engines/inline.py), so that the decision it makes is part of the decision table."""
+    fn = m.func(name)
+    tested = {x.id for n in ast.walk(fn) if isinstance(n, ast.If) for x in ast.walk(n.test) if isinstance(x, ast.Name)}
+    wanted: Set[str] = set()
+    for st in ast.walk(fn):
+        if isinstance(st, ast.Assign) and len(st.targets) == 1 and isinstance(st.targets[0], ast.Name) and st.targets[0].id in tested:
+            v = st.value.value if isinstance(st.value, ast.Await) else st.value
+            if isinstance(v, ast.Call) and isinstance(v.func, ast.Name) and m.has_func(v.func.id) and v.func.id not in PREDS:
+                wanted.add(v.func.id)
+    if not wanted:
+        return fn
+    from engines import inline as inl
+    others = tuple(st.name for st in m.tree.body if isinstance(st, (ast.FunctionDef, ast.AsyncFunctionDef)) and st.name not in wanted)
+    try:
+        m2, il = inl.inline_functions(m, name, exclude=others)
+    except AnalysisError:
+        raise
+    except Exception as e:
+        raise AnalysisError(f'{name}: helper inlining failed ({type(e).__name__}: {e})')
+    _KEEP.append(m2.tree)
+    return m2.func(name) if il.inlined else fn
+
+
+def _enum_atom(a: ast.AST, tracked: Set[str]):
+    """(local, op, constants) for a test of a local that only ever holds literal constants: `x is None`, `x is not None`, `x == c`, `x != c`, `x in (c, ..)`, `x`."""
+    if isinstance(a, ast.Name) and a.id in tracked:
+        return a.id, 'truthy', ()
+    if isinstance(a, ast.Compare) and len(a.ops) == 1 and isinstance(a.left, ast.Name) and a.left.id in tracked:
+        r, op = a.comparators[0], a.ops[0]
+        if isinstance(r, ast.Constant) and isinstance(op, (ast.Is, ast.Eq)):
+            return a.left.id, 'eq', (r.value,)
+        if isinstance(r, ast.Constant) and isinstance(op, (ast.IsNot, ast.NotEq)):
+            return a.left.id, 'ne', (r.value,)
+        if isinstance(r, (ast.Tuple, ast.List, ast.Set)) and all(isinstance(x, ast.Constant) for x in r.elts) and isinstance(op, (ast.In, ast.NotIn)):
+            return a.left.id, 'in' if isinstance(op, ast.In) else 'notin', tuple(x.value for x in r.elts)
+    return None
+
+
+def _enum_value_expr(e: ast.AST) -> bool:
+    return isinstance(e, ast.Constant) or (isinstance(e, ast.IfExp) and _enum_value_expr(e.body) and _enum_value_expr(e.orelse))
+
+
 def _check_loop(ctx: Ctx, m: pf.Module, name: str, limited: bool, de: cf.DelayEval, max_s: Fraction):
-    fn = _normalise_fn(m.func(name))
+    fn = _normalise_fn(_inline_deciding_helpers(m, name))
     loop, tr, after = _retry_loop(ctx, fn, name)
     pre = [st for st in fn.body if st is not loop]
     # counters initialised to a literal before the loop
@@ -312,6 +360,21 @@ def _check_loop(ctx: Ctx, m: pf.Module, name: str, limited: bool, de: cf.DelayEv
     exc_handler.body = _prune_inert_ifs(m, fn, exc_handler.body)
 
     atoms = absdom.collect_test_atoms(exc_handler.body)
+    # locals of the handler that only ever hold literal constants (the `kind` of a classification): tracked as values, their tests are decided
+    hdefs: Dict[str, List[ast.AST]] = {}
+    for s2 in exc_handler.body:
+        for x in ast.walk(s2):
+            if isinstance(x, ast.Assign) and len(x.targets) == 1 and isinstance(x.targets[0], ast.Name):
+                hdefs.setdefault(x.targets[0].id, []).append(x.value)
+    tracked = {n for n, ds in hdefs.items() if n not in inits and all(_enum_value_expr(d) for d in ds) and len(pf.assignments(fn).get(n, [])) == len(ds)
+               and any(_enum_atom(a, {n}) is not None for a in atoms)}
+    for n in sorted(tracked):
+        for d in hdefs[n]:
+            for x in ast.walk(d):
+                if isinstance(x, ast.IfExp):
+                    for a in absdom.bool_atoms(x.test):
+                        if absdom.atom_key(a) not in [absdom.atom_key(y) for y in atoms]:
+                            atoms.append(a)
     classified: Dict[str, Tuple] = {}
     free: List[str] = []
     consts: List[int] = [LIMITED_RETRIES]
@@ -321,6 +384,8 @@ def _check_loop(ctx: Ctx, m: pf.Module, name: str, limited: bool, de: cf.DelayEv
         cc = _counter_cmp(m, fn, a, set(inits))
         if isinstance(a, ast.Call) and pf.dotted(a.func) in PREDS and len(a.args) == 1 and isinstance(a.args[0], ast.Name) and a.args[0].id == evar and not a.keywords:
             classified[k] = ('pred', pf.dotted(a.func))
+        elif _enum_atom(a, tracked) is not None:
+            classified[k] = ('enum',) + _enum_atom(a, tracked)
         elif cc is not None:
             classified[k] = ('counter',) + cc
             consts.append(cc[2])
@@ -379,13 +444,31 @@ def _check_loop(ctx: Ctx, m: pf.Module, name: str, limited: bool, de: cf.DelayEv
                             return fv[key]
                         if kind[0] == 'pred':
                             return pv[kind[1]]
+                        if kind[0] == 'enum':
+                            def ev(e: ast.AST):
+                                if isinstance(e, ast.Constant):
+                                    return e.value
+                                if isinstance(e, ast.IfExp):
+                                    return ev(e.body) if absdom.eval_bool(e.test, val) else ev(e.orelse)
+                                raise _Undecided(pf.nsrc(e))
+                            last = next((s.value for s in reversed(executed) if isinstance(s, ast.Assign) and len(s.targets) == 1 and isinstance(s.targets[0], ast.Name)
+                                         and s.targets[0].id == kind[1]), None)
+                            if last is None:
+                                raise _Undecided(f'`{kind[1]}` is read before it is bound on this path')
+                            cur_v = ev(last)
+                            same = [c for c in kind[3] if (c is cur_v) or (type(c) is type(cur_v) and c == cur_v)]
+                            return {'truthy': bool(cur_v), 'eq': bool(same), 'ne': not same, 'in': bool(same), 'notin': not same}[kind[2]]
                         cname, op, c = kind[1], kind[2], kind[3]
                         incs = sum((_local_int_const(m, fn, s.value) or 0) * (1 if isinstance(s.op, ast.Add) else -1)
                                    for s in executed if isinstance(s, ast.AugAssign) and pf.nsrc(s.target) == cname)
                         cur = start[cname] + incs
                         return {ast.LtE: cur <= c, ast.Lt: cur < c, ast.Gt: cur > c, ast.GtE: cur >= c}[op]
 
-                    o = absdom.walk_block(exc_handler.body, val, executed)
+                    try:
+                        o = absdom.walk_block(exc_handler.body, val, executed)
+                    except _Undecided as e:
+                        undecided.append(f'the value of a tracked local is not a literal ({e})')
+                        continue
                     n_eval += 1
                     T, R, L = pv['is_transient_error'], pv['is_rate_limit_error'], pv['is_limited_retries_error']
                     got_retry = o.kind == 'fall'
